@@ -208,6 +208,8 @@ SCRIPT_POSITIONS = ["position startpos moves e2e4 e7e5",
                     "position fen r3k2r/p1ppqpb1/bn2pnp1/3PN3/1p2P3/2N2Q1p/PPPBBPPP/R3K2R w KQkq - 0 1"]
 SCRIPT_POSITIONS[3] = "position fen 6k1/8/8/8/8/8/5PPP/r5K1 w - - 0 1"  # in check, few replies (none: mate) -> not used with go
 SCRIPT_POSITIONS = [p for i, p in enumerate(SCRIPT_POSITIONS) if i != 3]
+# dead material: every search, `go infinite` included, runs through the whole depth range and ends by itself
+SCRIPT_POSITIONS.append("position fen 8/8/8/4k3/8/8/8/4K3 w - - 0 1")
 
 
 def path_to_script(nodes, path, variant=0):
